@@ -26,6 +26,20 @@ R4 `DefaultScheduler._process_target`: acquiring `self.wait_queue` is the first 
    `job_context.scheduled` test and followed by `scheduled = True` before any suspension (one placement).
 R5 `get_binding_config` builds `BindingConfig.targets` / `.filters` by ordered, complete iteration over the
    declared `config["targets"]` / `config.get("filters")`.
+R6 every declared rule reaches the rule list ("keeps a target iff SOME rule ... matches" quantifies over all the rules
+   of the configuration: seeded change 1 of the second round indexed the rules by (deployment, service), so the last
+   rule of a target replaced the earlier ones).  For `MatchingBindingFilter` and every subclass (class table), every
+   method that assigns `self.matching_rules` is followed backwards (value flow through locals, copies, helper returns,
+   adder methods): the collection is append-only -- no keyed store (`c[k] = rule`, `setdefault`, dict comprehension,
+   `dict(...)`), no slice / `filter` / comprehension condition, no removal (`pop/remove/clear/del`, in any method of the
+   class) --; its accumulation site (append / `+=` / extend / comprehension / yield) sits under a loop over the
+   complete configured `filters`, is reached by every iteration of that loop (CFG path, not lexical nesting) and the loop
+   ends by exhaustion only (no break/return; raising is not dropping); each element is a `MatchingRule(...)` whose
+   deployment / predicates / service derive from the entry of the current iteration.
+
+Not decided (R6): whether two predicates of one entry naming the same port overwrite each other in the `predicates`
+   mapping (that is today's behaviour of /repo: AND over distinct ports); a set of rules is accepted as long as
+   `MatchingRule` keeps identity equality (no `__eq__`/`__hash__`, not a dataclass), because then nothing collapses.
 
 Analysis errors are deferred (`_part` / `_settle`): a rule part that cannot interpret a changed shape does not
 mask the violation another part reports for the same change; without any new violation the first deferred
@@ -56,6 +70,7 @@ from ._util_F import (
     is_none,
     may_be_truthy,
     raises_only,
+    resolved,
     strip_await,
 )
 
@@ -78,7 +93,10 @@ META = {
         "the class table, on DefaultScheduler.schedule and on get_binding_config; CFG guard folding over the "
         "deployment/service atoms of MatchingRule.eval (8-row truth table), dominance/must-pass-through for the "
         "predicate loop, the any()-guarded accumulation and the emptiness test of the matching filter, and "
-        "suspension-freedom before the scheduler lock in _process_target. Decides necessary conditions only."
+        "suspension-freedom before the scheduler lock in _process_target; backward value flow from self.matching_rules to the "
+        "configured `filters` of every MatchingBindingFilter constructor in the class table (append-only collection, no keyed "
+        "store or removal, every iteration reaches the accumulation site, elements built from the current entry). "
+        "Decides necessary conditions only."
     ),
     "undecided": "which target wins when capacity appears later (policy/timing); behaviour of plugin filters",
     "assumptions": [
@@ -714,9 +732,542 @@ def r5(ctx):
     ctx.require(n_decl >= 2, "C13.R5: BindingConfig is no longer built from config['targets'] / config.get('filters')")
 
 
-_RULE_FNS = [("R1", r1), ("R2", r2), ("R3", r3), ("R4", r4), ("R5", r5)]
+# =========================================================================== R6
+
+RULES_ATTR = "matching_rules"
+CONFIG_PARAM = "filters"  # fixed by the JSON schema of the matching filter (`cls(name=..., **config)`)
+_ADD_ONE = {"append", "insert", "appendleft", "add"}
+_ADD_MANY = {"extend", "update"}
+_KEYED = {"setdefault", "__setitem__"}
+_REMOVE = {"pop", "remove", "clear", "discard", "popitem", "popleft", "__delitem__"}
+_SEQ_BUILTINS = {"list", "tuple", "iter", "sorted", "reversed"}
+_WHY_KEYED = "a later configuration entry with the same key replaces the rule of an earlier one (the OR among the rules of one target is lost)"
+
+
+def _names(node: ast.AST) -> set[str]:
+    return {n.id for n in ast.walk(node) if isinstance(n, ast.Name)}
+
+
+def _stmt_of(node: ast.AST) -> ast.AST:
+    while not isinstance(node, ast.stmt):
+        node = node._parent
+    return node
+
+
+def _loop_of(node: ast.AST):
+    """Innermost loop statement whose body/orelse contains `node` (what a `break` leaves)."""
+    n = getattr(node, "_parent", None)
+    while n is not None and not isinstance(n, (ast.For, ast.AsyncFor, ast.While, ast.FunctionDef, ast.AsyncFunctionDef, ast.Lambda)):
+        n = getattr(n, "_parent", None)
+    return n if isinstance(n, (ast.For, ast.AsyncFor, ast.While)) else None
+
+
+class _RuleFlow:
+    """Backward value flow from the rule list of the matching filter to the configuration it is built from.
+
+    A *collection* expression must be an append-only sequence: list/tuple literals, comprehensions without
+    conditions, `list()/tuple()/sorted()/x.copy()/x.values()` of a collection, `+`, helper returns (inlined), local
+    names (all definitions and every in-place mutation of the name).  Keyed stores (`c[k] = r`, `setdefault`,
+    dict comprehensions, `dict(...)`), element-dropping constructions (slices, `filter`, comprehension conditions) and
+    removals are violations.  An *accumulation site* (`c.append(r)`, `c += [...]`, `yield r`, a call of a class method
+    that appends unconditionally) under a loop over the complete configured sequence must be reached by every
+    iteration of that loop (CFG: no path from the body entry to the next iteration / the loop exit / the function
+    exit that avoids it).  An *element* must be a `MatchingRule(...)` construction (possibly through temporaries or a
+    helper) whose deployment/predicates/service arguments derive from the entry of the current iteration."""
+
+    def __init__(self, ctx, cls_q: str, adders: dict):
+        self.ctx = ctx
+        self.p = ctx.prog
+        self.cls_q = cls_q
+        self.adders = adders  # qualname -> (Func, [append calls]) : methods of the class adding one rule to self.<attr>
+        self.bads: list[tuple[object, ast.AST, str, list]] = []
+        self.unk: list[str] = []
+        self.covers: list[tuple[object, ast.AST]] = []
+        self.elems: list[tuple[object, ast.Call, set | None]] = []
+        self._seen: set = set()
+        rule_cls = self.p.classes.get(RULE)
+        self.identity = rule_cls is not None and not ({"__eq__", "__hash__"} & set(rule_cls.methods)) and not rule_cls.node.decorator_list
+
+    # -- bookkeeping
+    def bad(self, f, node, why, witness=()):
+        if not any(n is node for _, n, _, _ in self.bads):
+            self.bads.append((f, node, why, list(witness)))
+
+    def unknown(self, why):
+        self.unk.append(why)
+
+    def _is_attr(self, f, e) -> bool:
+        return (isinstance(e, ast.Attribute) and e.attr == RULES_ATTR and isinstance(e.value, ast.Name)
+                and bool(f.params) and e.value.id == f.params[0] and f.cls is not None)
+
+    # -- the configured sequence
+    def src(self, f, e, srcs: set[str], depth: int = 6, seen: frozenset = frozenset()):
+        """True: `e` is the complete configured sequence; False: something else; None: the configured sequence with
+        elements possibly dropped (a violation was recorded)."""
+        e = strip_await(e)
+        if depth <= 0:
+            return False
+        if isinstance(e, ast.NamedExpr):
+            return self.src(f, e.value, srcs, depth, seen)
+        if isinstance(e, ast.Name):
+            if e.id in seen:
+                return True if e.id in srcs else False
+            ds = defs_of(f, e.id)
+            if not ds:
+                return False
+            res = []
+            for d in ds:
+                if d.kind == "param":
+                    res.append(True if e.id in srcs else False)
+                elif d.kind in ("assign", "walrus") and d.index is None:
+                    res.append(self.src(f, d.value, srcs, depth - 1, seen | {e.id}))
+                else:
+                    res.append(False)
+            if any(r is None for r in res):
+                return None
+            if not all(r is True for r in res):
+                return False
+            for n in walk_no_nested(f.node):
+                if (isinstance(n, ast.Call) and isinstance(n.func, ast.Attribute) and n.func.attr in _REMOVE
+                        and isinstance(n.func.value, ast.Name) and n.func.value.id == e.id):
+                    self.bad(f, n, f"`{_norm(n)}` removes entries from the configured `{CONFIG_PARAM}` before the rules are built")
+                    return None
+                if isinstance(n, ast.Delete) and any(isinstance(t, ast.Subscript) and isinstance(t.value, ast.Name) and t.value.id == e.id for t in n.targets):
+                    self.bad(f, n, f"`{_norm(n)}` removes entries from the configured `{CONFIG_PARAM}` before the rules are built")
+                    return None
+            return True
+        if isinstance(e, ast.Subscript) and isinstance(e.slice, ast.Slice):
+            r = self.src(f, e.value, srcs, depth - 1, seen)
+            if r is True:
+                self.bad(f, e, f"slice `{_norm(e)}` drops entries of the configured `{CONFIG_PARAM}`")
+                return None
+            return r
+        if isinstance(e, (ast.ListComp, ast.GeneratorExp)) and len(e.generators) == 1:
+            g0 = e.generators[0]
+            if isinstance(e.elt, ast.Name) and isinstance(g0.target, ast.Name) and e.elt.id == g0.target.id:
+                r = self.src(f, g0.iter, srcs, depth - 1, seen)
+                if r is True and g0.ifs:
+                    self.bad(f, e, f"`{_norm(e)}` drops entries of the configured `{CONFIG_PARAM}`")
+                    return None
+                return r
+            return False
+        if isinstance(e, ast.Call):
+            b = builtin(self.p, f, e)
+            if b in _SEQ_BUILTINS | {"enumerate"} and e.args:
+                return self.src(f, e.args[0], srcs, depth - 1, seen)
+            if b == "filter" and len(e.args) == 2:
+                r = self.src(f, e.args[1], srcs, depth - 1, seen)
+                if r is True:
+                    self.bad(f, e, f"`{_norm(e)}` drops entries of the configured `{CONFIG_PARAM}`")
+                    return None
+                return r
+            if isinstance(e.func, ast.Attribute) and e.func.attr == "copy" and not e.args:
+                return self.src(f, e.func.value, srcs, depth - 1, seen)
+            if (dotted(e.func) or "") in ("copy.copy", "copy.deepcopy") and e.args:
+                return self.src(f, e.args[0], srcs, depth - 1, seen)
+        return False
+
+    # -- collections
+    def coll(self, f, e, srcs, depth: int = 3, loopvars: set | None = None):
+        c = lambda x: self.coll(f, x, srcs, depth, loopvars)  # noqa: E731
+        e = strip_await(e)
+        if isinstance(e, ast.Constant) and e.value is None:
+            return
+        if isinstance(e, (ast.NamedExpr, ast.Starred)):
+            return c(e.value)
+        if isinstance(e, ast.Name):
+            return self._receiver(f, e.id, lambda x: isinstance(x, ast.Name) and x.id == e.id, srcs, depth, name=e.id)
+        if self._is_attr(f, e):
+            return self._receiver(f, f"{f.params[0]}.{RULES_ATTR}", lambda x: self._is_attr(f, x), srcs, depth)
+        if isinstance(e, (ast.List, ast.Tuple, ast.Set)):
+            if isinstance(e, ast.Set) and not self.identity:
+                self.bad(f, e, f"set `{_norm(e)}`: rules that compare equal collapse into one")
+            for x in e.elts:
+                if isinstance(x, ast.Starred):
+                    c(x.value)
+                else:
+                    self.elem(f, x, srcs, loopvars, depth)
+            return
+        if isinstance(e, ast.Dict):
+            if e.keys:
+                self.bad(f, e, f"rules are collected in the keyed literal `{_norm(e)}`: {_WHY_KEYED}")
+            return
+        if isinstance(e, ast.DictComp):
+            return self.bad(f, e, f"rules are collected by the dict comprehension `{_norm(e)}`: {_WHY_KEYED}")
+        if isinstance(e, (ast.ListComp, ast.GeneratorExp, ast.SetComp)):
+            if isinstance(e, ast.SetComp) and not self.identity:
+                self.bad(f, e, f"set comprehension `{_norm(e)}`: rules that compare equal collapse into one")
+            if any(g.ifs for g in e.generators):
+                return self.bad(f, e, f"the condition of `{_norm(e)}` can drop a configured rule")
+            if len(e.generators) != 1:
+                return self.unknown(f"comprehension with several generators `{_norm(e)}`")
+            g0 = e.generators[0]
+            if isinstance(e.elt, ast.Name) and isinstance(g0.target, ast.Name) and e.elt.id == g0.target.id:
+                return c(g0.iter)
+            s = self.src(f, g0.iter, srcs)
+            if s is True:
+                self.covers.append((f, e))
+                self.elem(f, e.elt, srcs, _names(g0.target), depth)
+            elif s is False:
+                self.unknown(f"comprehension `{_norm(e)}` does not iterate the configured `{CONFIG_PARAM}`")
+            return
+        if isinstance(e, ast.Subscript) and isinstance(e.slice, ast.Slice):
+            self.bad(f, e, f"slice `{_norm(e)}` can drop a configured rule")
+            return c(e.value)
+        if isinstance(e, ast.BinOp) and isinstance(e.op, (ast.Add, ast.BitOr)):
+            c(e.left)
+            return c(e.right)
+        if isinstance(e, ast.IfExp):
+            c(e.body)
+            return c(e.orelse)
+        if isinstance(e, ast.BoolOp):
+            for v in e.values:
+                c(v)
+            return
+        if isinstance(e, ast.Call):
+            return self._coll_call(f, e, srcs, depth, loopvars)
+        self.unknown(f"expression `{_norm(e)}` in the construction of the rule list")
+
+    def _coll_call(self, f, e: ast.Call, srcs, depth, loopvars):
+        c = lambda x: self.coll(f, x, srcs, depth, loopvars)  # noqa: E731
+        b = builtin(self.p, f, e)
+        fn = e.func
+        if b is not None:
+            if b in _SEQ_BUILTINS:
+                return c(e.args[0]) if e.args else None
+            if b in ("set", "frozenset"):
+                if not self.identity:
+                    self.bad(f, e, f"`{_norm(e)}`: rules that compare equal collapse into one")
+                return c(e.args[0]) if e.args else None
+            if b == "dict":
+                if e.args or e.keywords:
+                    self.bad(f, e, f"rules are collected by `{_norm(e)}`: {_WHY_KEYED}")
+                return
+            if b == "filter":
+                return self.bad(f, e, f"`{_norm(e)}` can drop a configured rule")
+            return self.unknown(f"builtin call `{_norm(e)}` in the construction of the rule list")
+        d = dotted(fn) or ""
+        if d == "dict.fromkeys":
+            return self.bad(f, e, f"rules are collected by `{_norm(e)}`: {_WHY_KEYED}")
+        if d in ("copy.copy", "copy.deepcopy") and e.args:
+            return c(e.args[0])
+        if d == "itertools.chain":
+            for a in e.args:
+                c(a)
+            return
+        if isinstance(fn, ast.Attribute) and fn.attr in ("copy", "values") and not e.args:
+            return c(fn.value)
+        if depth > 0:
+            for q in resolved(self.p, f, e, fanout=False):
+                g = self.p.functions.get(q)
+                if g is None:
+                    continue
+                bound = bind_args(e, g.node, skip_self=isinstance(fn, ast.Attribute) and g.cls is not None)
+                srcs2 = {prm for prm, a in bound.items() if self.src(f, a, srcs) is True}
+                rets = [n for n in g.body_nodes() if isinstance(n, ast.Return) and n.value is not None]
+                yields = [n for n in g.body_nodes() if isinstance(n, ast.Yield) and n.value is not None]
+                if not rets and not yields:
+                    return self.unknown(f"helper `{q}` returns nothing")
+                for r in rets:
+                    self.coll(g, r.value, srcs2, depth - 1)
+                for y in yields:
+                    self.site(g, y, srcs2, depth - 1, elem=y.value)
+                return
+        self.unknown(f"call `{_norm(e)}` in the construction of the rule list")
+
+    def _receiver(self, f, label: str, is_recv, srcs, depth, name: str | None = None):
+        """All definitions and in-place mutations of a local name / of self.<attr> inside `f`."""
+        key = (f.qualname, label)
+        if key in self._seen:
+            return
+        self._seen.add(key)
+        if name is not None:
+            ds = defs_of(f, name)
+            if not ds:
+                return self.unknown(f"name `{name}` has no definition in {f.name}")
+            for d in ds:
+                if d.kind in ("assign", "walrus") and d.index is None:
+                    self.coll(f, d.value, srcs, depth)
+                elif d.kind == "aug":
+                    self.site(f, d.stmt, srcs, depth, many=d.value)
+                else:
+                    self.unknown(f"`{name}` is bound by a {d.kind} construct in {f.name}")
+        for n in walk_no_nested(f.node):
+            if isinstance(n, ast.Call) and isinstance(n.func, ast.Attribute) and is_recv(n.func.value):
+                m = n.func.attr
+                if m in _ADD_ONE and n.args:
+                    if m == "add" and not self.identity:
+                        self.bad(f, n, f"`{_norm(n)}` adds to a set: rules that compare equal collapse into one")
+                    self.site(f, n, srcs, depth, elem=n.args[-1])
+                elif m in _ADD_MANY and n.args:
+                    self.site(f, n, srcs, depth, many=n.args[0])
+                elif m in _KEYED:
+                    self.bad(f, n, f"rules are collected by the keyed store `{_norm(n)}`: {_WHY_KEYED}")
+                elif m in _REMOVE and name is not None:  # removals from self.<attr> are reported once, by the class-wide scan of r6
+                    self.bad(f, n, f"`{_norm(n)}` removes a rule from the collection")
+            elif isinstance(n, (ast.Assign, ast.AnnAssign, ast.AugAssign)):
+                tg = n.targets if isinstance(n, ast.Assign) else [n.target]
+                for t in tg:
+                    for x in ([t] if not isinstance(t, (ast.Tuple, ast.List)) else t.elts):
+                        if isinstance(x, ast.Subscript) and is_recv(x.value):
+                            self.bad(f, n, f"rules are collected by the keyed store `{_norm(n)}`: {_WHY_KEYED}")
+                        elif name is None and isinstance(n, ast.AugAssign) and is_recv(x):
+                            self.site(f, n, srcs, depth, many=n.value)
+            elif isinstance(n, ast.Delete) and name is not None:
+                if any(isinstance(t, ast.Subscript) and is_recv(t.value) for t in n.targets):
+                    self.bad(f, n, f"`{_norm(n)}` removes a rule from the collection")
+
+    # -- accumulation sites
+    def site(self, f, node, srcs, depth, elem=None, many=None):
+        loops = enclosing_loops(node, f.node)
+        carrier = None
+        for lp in loops:
+            s = self.src(f, lp.iter, srcs)
+            if s is None:
+                return
+            if s is True:
+                carrier = lp
+                break
+        moved = False
+        if carrier is None and loops and isinstance(elem, ast.Name) and elem.id in _names(loops[-1].target):
+            # `for r in <collection>: acc.append(r)`: the rules move from one collection to another
+            carrier, moved = loops[-1], True
+            self.coll(f, carrier.iter, srcs, depth)
+        if carrier is None:
+            if loops:
+                return self.unknown(f"`{_norm(node)}` accumulates under a loop over `{_norm(loops[0].iter)}`, which is not the configured `{CONFIG_PARAM}`")
+            if elem is not None:
+                self.elem(f, elem, srcs, None, depth)
+            if many is not None:
+                self.coll(f, many, srcs, depth)
+            return
+        g = f.cfg
+        it = g.ids_of(carrier)
+        cn = (g.ids_of(node) if isinstance(node, ast.stmt) else []) or g.node_containing(node)
+        if not it or not cn:
+            return self.unknown(f"CFG nodes of `{_norm(node)}` / its loop not found")
+        after = set(edge_succ(g, it[0], "f")) | {g.exit, it[0]}
+        skip = None
+        for s in edge_succ(g, it[0], "t"):
+            if s in cn:
+                continue
+            skip = g.path(s, after, avoid=cn)
+            if skip:
+                break
+        if skip:
+            self.bad(f, carrier, f"an iteration over `{_norm(carrier.iter)}` can finish without reaching `{_norm(node)}`: a configured rule is dropped", g.describe(skip))
+            return
+        # the loop ends by exhaustion only: no break out of it, no return from inside it (raising is not dropping)
+        for nid in sorted(g.reach(edge_succ(g, it[0], "t"), avoid=[it[0]], include_src=True)):
+            n = g.nodes[nid]
+            if n.kind == "return" or (n.kind == "break" and n.ast is not None and _loop_of(n.ast) is carrier):
+                self.bad(f, n.ast if n.ast is not None else carrier,
+                         f"the loop over `{_norm(carrier.iter)}` can be left at `{n.text(40)}` before every configured rule was added")
+                return
+        if not moved:
+            self.covers.append((f, node))
+        lv = _names(carrier.target)
+        if elem is not None and not moved:
+            self.elem(f, elem, srcs, lv, depth)
+        if many is not None:
+            self.coll(f, many, srcs, depth, loopvars=lv)
+
+    # -- elements
+    def elem(self, f, x, srcs, loopvars, depth, seen: frozenset = frozenset()):
+        x = strip_await(x)
+        if isinstance(x, ast.NamedExpr):
+            return self.elem(f, x.value, srcs, loopvars, depth, seen)
+        if isinstance(x, ast.IfExp):
+            self.elem(f, x.body, srcs, loopvars, depth, seen)
+            return self.elem(f, x.orelse, srcs, loopvars, depth, seen)
+        if isinstance(x, ast.Name):
+            if x.id in seen:
+                return
+            ds = defs_of(f, x.id)
+            if ds and all(d.kind in ("assign", "walrus") and d.index is None for d in ds):
+                for d in ds:
+                    self.elem(f, d.value, srcs, loopvars, depth, seen | {x.id})
+                return
+            return self.unknown(f"element `{x.id}` of the rule list is not bound by plain assignments in {f.name}")
+        if isinstance(x, ast.Call):
+            if call_is(self.p, f, x, RULE):
+                self.elems.append((f, x, loopvars))
+                return
+            if depth > 0:
+                for q in resolved(self.p, f, x, fanout=False):
+                    g = self.p.functions.get(q)
+                    if g is None or any(isinstance(n, (ast.Yield, ast.YieldFrom)) for n in g.body_nodes()):
+                        continue
+                    rets = [n for n in g.body_nodes() if isinstance(n, ast.Return) and n.value is not None]
+                    if not rets:
+                        continue
+                    bound = bind_args(x, g.node, skip_self=isinstance(x.func, ast.Attribute) and g.cls is not None)
+                    lv2 = None if loopvars is None else {prm for prm, a in bound.items() if _depends(f, a, loopvars)}
+                    for r in rets:
+                        self.elem(g, r.value, set(), lv2, depth - 1)
+                    return
+        self.unknown(f"element `{_norm(x)}` of the rule list is not a MatchingRule construction")
+
+
+def _depends(f, expr: ast.AST, targets: set[str]) -> bool:
+    """Some name occurring in `expr` is, or is (transitively, flow-insensitively) computed from, one of `targets`:
+    plain/augmented assignments, loop and comprehension bindings, subscript stores `n[k] = v` and method calls
+    `n.m(args)` on a local all count as "n is computed from"."""
+    dep: dict[str, set[str]] = {}
+    for n in walk_no_nested(f.node):
+        if isinstance(n, (ast.Assign, ast.AnnAssign, ast.AugAssign)) and n.value is not None:
+            tg = n.targets if isinstance(n, ast.Assign) else [n.target]
+            for t in tg:
+                for nm in _names(t):
+                    dep.setdefault(nm, set()).update(_names(n.value) | (_names(t) - {nm}))
+        elif isinstance(n, (ast.For, ast.AsyncFor, ast.comprehension)):
+            for nm in _names(n.target):
+                dep.setdefault(nm, set()).update(_names(n.iter))
+        elif isinstance(n, ast.NamedExpr):
+            dep.setdefault(n.target.id, set()).update(_names(n.value))
+        elif isinstance(n, ast.Call) and isinstance(n.func, ast.Attribute) and isinstance(n.func.value, ast.Name):
+            dep.setdefault(n.func.value.id, set()).update(*[_names(a) for a in [*n.args, *[k.value for k in n.keywords]]], set())
+    todo = list(_names(expr))
+    seen = set(todo)
+    while todo:
+        nm = todo.pop()
+        if nm in targets:
+            return True
+        for x in dep.get(nm, ()):
+            if x not in seen:
+                seen.add(x)
+                todo.append(x)
+    return False
+
+
+def _self_attr_stores(f):
+    """(stmt, value, augmented) for every `self.<RULES_ATTR> = / : T = / += ...` in `f`."""
+    if not f.params:
+        return []
+    me = f.params[0]
+    out = []
+    for n in walk_no_nested(f.node):
+        if isinstance(n, (ast.Assign, ast.AnnAssign, ast.AugAssign)) and n.value is not None:
+            tg = n.targets if isinstance(n, ast.Assign) else [n.target]
+            for t in tg:
+                for x in ([t] if not isinstance(t, (ast.Tuple, ast.List)) else t.elts):
+                    if isinstance(x, ast.Attribute) and x.attr == RULES_ATTR and isinstance(x.value, ast.Name) and x.value.id == me:
+                        out.append((n, n.value, isinstance(n, ast.AugAssign)))
+    return out
+
+
+def _self_attr_calls(f):
+    if not f.params:
+        return []
+    me = f.params[0]
+    return [n for n in walk_no_nested(f.node) if isinstance(n, ast.Call) and isinstance(n.func, ast.Attribute)
+            and isinstance(n.func.value, ast.Attribute) and n.func.value.attr == RULES_ATTR
+            and isinstance(n.func.value.value, ast.Name) and n.func.value.value.id == me]
+
+
+def r6(ctx):
+    p = ctx.prog
+    p.cls(MBF)
+    p.cls(RULE)
+    n_builders = 0
+    for cq in [MBF, *p.subclasses(MBF)]:
+        cls = p.cls(cq)
+        short = cls.qualname.rpartition(".")[2]
+        methods = list(cls.methods.values())
+        builders = [m for m in methods if any(not aug for _, _, aug in _self_attr_stores(m))]
+        if cq == MBF:
+            ctx.require(bool(builders), f"C13.R6: no method of {short} assigns self.{RULES_ATTR}")
+        # ---- nothing removes from / overwrites inside the rule list after it was built
+        removed = False
+        for m in methods:
+            for c in _self_attr_calls(m):
+                if c.func.attr in _REMOVE:
+                    removed = True
+                    ctx.ob("R6", "no method removes a rule from the rule list", False, func=m, node=c, instance=f"rules:remove:{_norm(c)}",
+                           message=f"{short}.{m.name}: `{_norm(c)}` removes a declared rule from self.{RULES_ATTR}")
+            for n in walk_no_nested(m.node):
+                if isinstance(n, ast.Delete) and any(_norm(t).startswith(f"{m.params[0]}.{RULES_ATTR}") for t in n.targets if m.params):
+                    removed = True
+                    ctx.ob("R6", "no method removes a rule from the rule list", False, func=m, node=n, instance=f"rules:remove:{_norm(n)}",
+                           message=f"{short}.{m.name}: `{_norm(n)}` removes declared rules from self.{RULES_ATTR}")
+        if methods and not removed:
+            ctx.ob("R6", "no method removes a rule from the rule list", True, func=methods[0], node=cls.node, instance=f"rules:remove:{short}")
+        if not builders:
+            continue
+        # methods that add one rule to the list on every call (helper extraction of the loop body)
+        adders = {}
+        for m in methods:
+            if m in builders:
+                continue
+            adds = [c for c in _self_attr_calls(m) if c.func.attr in _ADD_ONE and c.args]
+            if adds:
+                adders[m.qualname] = (m, adds)
+        for b in builders:
+            n_builders += 1
+            srcs: set[str] = set()
+            if b.name == "__init__":
+                ctx.require(CONFIG_PARAM in b.params, f"C13.R6: {short}.__init__ lost its `{CONFIG_PARAM}` parameter")
+                srcs = {CONFIG_PARAM}
+            else:
+                probe = _RuleFlow(ctx, cq, {})
+                for caller, call in p.callers(b.qualname):
+                    if caller.name == "__init__" and caller.cls is not None and p.is_subclass(cq, caller.cls.qualname) and CONFIG_PARAM in caller.params:
+                        bound = bind_args(call, b.node, skip_self=True)
+                        srcs |= {prm for prm, a in bound.items() if probe.src(caller, a, {CONFIG_PARAM}) is True}
+            fl = _RuleFlow(ctx, cq, adders)
+            for stmt, value, aug in _self_attr_stores(b):
+                if not aug:
+                    fl.coll(b, value, srcs)
+            fl.coll(b, ast.Attribute(value=ast.Name(id=b.params[0], ctx=ast.Load()), attr=RULES_ATTR, ctx=ast.Load()), srcs)
+            # calls of adder methods are accumulation sites of the builder
+            for c in b.calls():
+                for q in resolved(p, b, c, fanout=False):
+                    if q in adders:
+                        m, adds = adders[q]
+                        g = m.cfg
+                        must = any(g.escape(g.entry, g.node_containing(a)) is None for a in adds)
+                        if not must:
+                            fl.bad(m, adds[0], f"`{_norm(adds[0])}` is not reached by every call of {m.name}: a configured rule can be dropped")
+                        bound = bind_args(c, m.node, skip_self=True)
+                        lps = enclosing_loops(c, b.node)
+                        lv = _names(lps[-1].target) if lps else set()
+                        lv2 = {prm for prm, a in bound.items() if _depends(b, a, lv)}
+                        n0 = len(fl.covers)
+                        fl.site(b, c, srcs, 3)
+                        if len(fl.covers) > n0:
+                            for a in adds:
+                                fl.elem(m, a.args[-1], set(), lv2, 2)
+            what = f"every entry of the configured `{CONFIG_PARAM}` yields a rule in self.{RULES_ATTR}"
+            for fn, node, why, wit in fl.bads:
+                ctx.ob("R6", what, False, func=fn, node=node, instance=f"rules:{_norm(node)}",
+                       message=f"{short}.{fn.name}: {why}", witness=[f"construct: {_norm(_stmt_of(node))}", *wit])
+            if fl.bads:
+                continue
+            ctx.require(not fl.unk, f"C13.R6: cannot interpret how {short}.{b.name} builds self.{RULES_ATTR}: {fl.unk[:2]}")
+            ctx.ob("R6", what, bool(fl.covers), func=b, node=b.node, instance=f"rules:complete:{b.name}",
+                   message=f"{short}.{b.name}: self.{RULES_ATTR} is not built by a complete iteration over the configured `{CONFIG_PARAM}` "
+                           "(no append/comprehension site under a loop over the whole sequence): declared rules do not reach the rule list")
+            for fn, node in fl.covers:
+                ctx.ob("R6", "every iteration over the configured filters adds its rule (append-only, no keyed store)", True, func=fn, node=node)
+            init = p.func(f"{RULE}.__init__").node
+            for fn, call, lv in fl.elems:
+                if lv is None:
+                    continue
+                args = bind_args(call, init, skip_self=True)
+                for k in ("deployment", "predicates", "service"):
+                    a = args.get(k)
+                    if a is None:
+                        ctx.ob("R6", f"the rule's {k} comes from its own configuration entry", k == "service", func=fn, node=call, instance=f"rules:arg:{k}",
+                               message=f"{short}.{fn.name}: MatchingRule is built without `{k}`")
+                        continue
+                    ctx.ob("R6", f"the rule's {k} comes from its own configuration entry", _depends(fn, a, lv), func=fn, node=call, instance=f"rules:arg:{k}",
+                           message=f"{short}.{fn.name}: MatchingRule({k}={_norm(a)}) does not derive from the entry of the current iteration ({sorted(lv)})")
+    ctx.require(n_builders > 0, f"C13.R6: no builder of self.{RULES_ATTR} analysed")
+
+
+_RULE_FNS = [("R1", r1), ("R2", r2), ("R3", r3), ("R4", r4), ("R5", r5), ("R6", r6)]
 RULES = [(rid, _rule(rid, fn, last=i == len(_RULE_FNS) - 1)) for i, (rid, fn) in enumerate(_RULE_FNS)]
-FLOORS = {"R1": 2, "R2": 8, "R3": 13, "R4": 3, "R5": 3}
+FLOORS = {"R1": 2, "R2": 8, "R3": 13, "R4": 3, "R5": 3, "R6": 6}
 
 _TASKS = "for target in targets]"
 _EVAL = "matching_rule.eval(job=job, deployment=target.deployment.name, service=target.service)"
@@ -724,6 +1275,19 @@ _ANY = f"any(({_EVAL} for matching_rule in self.matching_rules))"
 _KEEP_LOOP = f"    for target in targets:\n        if {_ANY}:\n            filtered_targets.append(target)"
 _APPLY = "        targets = await f.get_targets(job, targets)"
 _IMPORT_RANDOM = "import random"
+_INIT = f"{MBF}.__init__"
+_DECL = "self.matching_rules: MutableSequence[MatchingRule] = []"
+_MK = "MatchingRule(deployment=deployment, filter_=self.name, predicates={job['port']: job['match'] for job in deployments['job']}, service=service)"
+_ADD = f"self.matching_rules.append({_MK})"
+_ENTRY = "target = deployments['target']"
+_CFG_LOOP = "for deployments in filters:"
+_LOOP_HEAD = (
+    f"    {_CFG_LOOP}\n        {_ENTRY}\n        deployment = target if isinstance(target, str) else target['deployment']\n"
+    "        service = target['service'] if isinstance(target, MutableMapping) and 'service' in target else None\n"
+)
+_BUILD = f"    {_DECL}\n{_LOOP_HEAD}        {_ADD}"
+_SUB_HEAD = "class {0}(MatchingBindingFilter):\n    def __init__(self, name, filters):\n        BindingFilter.__init__(self, name)\n        self._evaluated_steps = set()\n"
+_SUB_MK = "MatchingRule(deployment=entry['target'], filter_=self.name, predicates={j['port']: j['match'] for j in entry['job']})"
 
 VARIANTS = [
     # ---- R1
@@ -779,6 +1343,36 @@ VARIANTS = [
     # ---- R5
     V("binding targets reversed", UFILE, GBC, "for target in config['targets']:", "for target in reversed(config['targets']):", "R5"),
     V("binding filters sorted", UFILE, GBC, "for c in config.get('filters')]", "for c in sorted(config.get('filters'), key=str)]", "R5"),
+    # ---- R6
+    V("rules indexed by (deployment, service): a later rule of a target overwrites the earlier ones (seeded change 1)", MFILE, _INIT, _BUILD,
+      f"    rules = {{}}\n{_LOOP_HEAD}        rules[deployment, service] = {_MK}\n    self.matching_rules = list(rules.values())", "R6", control=True),
+    V("first rule of a target wins (setdefault)", MFILE, _INIT, _BUILD,
+      f"    rules = {{}}\n{_LOOP_HEAD}        rules.setdefault((deployment, service), {_MK})\n    self.matching_rules = [*rules.values()]", "R6"),
+    V("rules built by a dict comprehension keyed by the target", MFILE, _INIT, _BUILD,
+      "    self.matching_rules = list({str(d['target']): MatchingRule(deployment=d['target'], filter_=self.name, predicates={}) for d in filters}.values())", "R6"),
+    V("one rule per deployment: later entries skipped", MFILE, _INIT, f"        {_ADD}",
+      f"        if all((r.deployment != deployment for r in self.matching_rules)):\n            {_ADD}", "R6"),
+    V("entries without service skipped by a guard clause", MFILE, _INIT, f"        {_ADD}", f"        if service is None:\n            continue\n        {_ADD}", "R6"),
+    V("only the first configured entry is read", MFILE, _INIT, _CFG_LOOP, "for deployments in filters[:1]:", "R6"),
+    V("configuration filtered before the loop", MFILE, _INIT, _CFG_LOOP, "for deployments in [d for d in filters if d.get('job')]:", "R6"),
+    V("loop left after the first rule", MFILE, _INIT, f"        {_ADD}", f"        {_ADD}\n        break", "R6"),
+    V("last rule removed after construction", MFILE, _INIT, f"        {_ADD}", f"        {_ADD}\n    self.matching_rules.pop()", "R6"),
+    V("get_targets consumes the rule list", MFILE, f"{MBF}.get_targets", "filtered_targets = []\n", "filtered_targets = []\n    self.matching_rules.pop(0)\n", "R6"),
+    V("every rule is built from the first entry", MFILE, _INIT, _ENTRY, "target = filters[0]['target']", "R6"),
+    V("rule list sliced when stored", MFILE, _INIT, _BUILD,
+      f"    rules = []\n{_LOOP_HEAD}        rules.append({_MK})\n    self.matching_rules = rules[-1:]", "R6"),
+    V("new sibling filter keeps one rule per deployment", MFILE, None, None, None, "R6",
+      append=_SUB_HEAD.format("PerDeploymentFilter") + f"        by_dep = {{}}\n        for entry in filters:\n            by_dep[entry['target']] = {_SUB_MK}\n"
+      "        self.matching_rules = list(by_dep.values())\n"),
+    V("sibling filter: adder method appends conditionally", MFILE, None, None, None, "R6",
+      append=_SUB_HEAD.format("AdderFilter") + "        self.matching_rules = []\n        for entry in filters:\n            self._add(entry)\n"
+      f"    def _add(self, entry):\n        if entry['job']:\n            self.matching_rules.append({_SUB_MK})\n"),
+    V("rule list never filled from the configuration", MFILE, _INIT, _BUILD, "    self.matching_rules = []", "R6"),
+    V("get_targets narrows the rule list to the rules with a service", MFILE, f"{MBF}.get_targets", "filtered_targets = []\n",
+      "filtered_targets = []\n    self.matching_rules = [r for r in self.matching_rules if r.service]\n", "R6"),
+    V("sibling filter: builder method called from __init__ indexes the rules by target", MFILE, None, None, None, "R6",
+      append=_SUB_HEAD.format("LoaderFilter") + "        self._load(filters)\n    def _load(self, entries):\n        d = {}\n        for entry in entries:\n"
+      f"            d[entry['target']] = {_SUB_MK}\n        self.matching_rules = list(d.values())\n"),
     # ---- benign
     V("rename accumulator", MFILE, f"{MBF}.get_targets", "filtered_targets", "kept", None, count=4),
     V("de-duplicating guard, still target-major", MFILE, f"{MBF}.get_targets", f"if {_ANY}:", f"if target not in filtered_targets and {_ANY}:", None),
@@ -794,4 +1388,30 @@ VARIANTS = [
     V("logging added to eval", MFILE, f"{RULE}.eval", "    return True", "    logger.debug('matched')\n    return True", None),
     V("match value into a local first", MFILE, f"{RULE}.eval", "        if match != str(job.inputs[input_name].value):",
       "        actual = str(job.inputs[input_name].value)\n        if match != actual:", None),
+    V("rule into a temporary before it is appended", MFILE, _INIT, f"        {_ADD}", f"        rule = {_MK}\n        self.matching_rules.append(rule)", None),
+    V("rules collected in a local list, stored afterwards", MFILE, _INIT, _BUILD,
+      f"    rules = []\n{_LOOP_HEAD}        rules.append({_MK})\n    self.matching_rules = rules", None),
+    V("rules collected in a local list, copied when stored", MFILE, _INIT, _BUILD,
+      f"    rules = []\n{_LOOP_HEAD}        rules.append({_MK})\n    self.matching_rules = list(rules)", None),
+    V("rule list built by a comprehension over a module-level helper", MFILE, _INIT, _BUILD,
+      "    self.matching_rules = [_mk_rule(self.name, entry) for entry in filters]", None,
+      append="def _mk_rule(name, entry):\n    t = entry['target']\n    dep = t if isinstance(t, str) else t['deployment']\n"
+      "    return MatchingRule(deployment=dep, filter_=name, predicates={j['port']: j['match'] for j in entry['job']}, service=None if isinstance(t, str) else t.get('service'))\n"),
+    V("configuration iterated through enumerate(list(...))", MFILE, _INIT, _CFG_LOOP, "for _i, deployments in enumerate(list(filters)):", None),
+    V("rule added with += [rule]", MFILE, _INIT, f"        {_ADD}", f"        self.matching_rules += [{_MK}]", None),
+    V("rule added with extend([rule])", MFILE, _INIT, f"        {_ADD}", f"        self.matching_rules.extend([{_MK}])", None),
+    V("malformed entry raises instead of being dropped", MFILE, _INIT, f"        {_ENTRY}", f"        {_ENTRY}\n        if target is None:\n            raise WorkflowDefinitionException('no target')", None),
+    V("logging between the entry and the append", MFILE, _INIT, f"        {_ADD}", f"        if logger.isEnabledFor(logging.DEBUG):\n            logger.debug('rule')\n        {_ADD}", None),
+    V("sibling filter: loop body extracted into an adder method", MFILE, None, None, None, None,
+      append=_SUB_HEAD.format("AdderFilter") + "        self.matching_rules = []\n        for entry in filters:\n            self._add(entry)\n"
+      f"    def _add(self, entry):\n        rule = {_SUB_MK}\n        self.matching_rules.append(rule)\n"),
+    V("sibling filter: rules moved from a staging list", MFILE, None, None, None, None,
+      append=_SUB_HEAD.format("StagedFilter") + f"        staged = [{_SUB_MK} for entry in filters]\n        self.matching_rules = []\n"
+      "        for r in staged:\n            self.matching_rules.append(r)\n"),
+    V("sibling filter: builder method called from __init__", MFILE, None, None, None, None,
+      append=_SUB_HEAD.format("LoaderFilter") + "        self._load(filters)\n    def _load(self, entries):\n        self.matching_rules = []\n        for entry in entries:\n"
+      f"            self.matching_rules.append({_SUB_MK})\n"),
+    V("rules produced by a generator helper", MFILE, _INIT, _BUILD, "    self.matching_rules = list(_gen_rules(self.name, filters))", None,
+      append="def _gen_rules(name, entries):\n    for e in entries:\n        yield MatchingRule(deployment=e['target'], filter_=name, predicates={j['port']: j['match'] for j in e['job']})\n"),
+    V("configuration iterated through an explicit iterator", MFILE, _INIT, _CFG_LOOP, "it = iter(filters)\n    for deployments in it:", None),
 ]
